@@ -209,7 +209,7 @@ def suites(tier, seed):
                               desc="object API (Vec and stack containers) == classic bytes; round trip; symbolic %d-byte message" % n, bounds={"message_len": n}))
     for n in ([0, 17] if tier == "quick" else [0, 1, 17, 40]):
         src += rs.hdr(("barrier", "fmt") + rs.MAC + ("scalarmult", "scalarmult_base", "seal_nonce"), extra=RNG_STUB) + H_SEAL % dict(len=n)
-        hs.append(Harness("c01_seal_layout_n%d" % n, unwind=max(70, n + 30), timeout=2400, site="crypto_box_seal",
+        hs.append(Harness("c01_seal_layout_n%d" % n, unwind=max(70, n + 60), timeout=2400, site="crypto_box_seal",
                           desc="sealed box layout and key/nonce derivation inputs, fully symbolic (recipient key, message, RNG output)", bounds={"message_len": n}))
     src += rs.hdr(("barrier", "fmt", "b2compress")) + H_SEAL_NONCE
     hs.append(Harness("c01_seal_nonce", unwind=132, timeout=1800, site="crypto_box_seal_nonce", desc="sealed-box nonce = BLAKE2b-24(epk || rpk): compress transcript, symbolic keys", bounds={}))
